@@ -74,13 +74,13 @@ def gen_bar(rng, cid, tier):
 
 
 EXPLORE = [
-    (["sem 0", "thread w2/0", "thread w1/0", "thread s"], 1500, 12000),            # the D7 shape
-    (["sem 0", "thread w1/1", "thread w1/0", "thread s s"], 1000, 12000),
+    (["sem 0", "thread w2/0", "thread w1/0", "thread s"], 600, 12000),            # the D7 shape
+    (["sem 0", "thread w1/1", "thread w1/0", "thread s s"], 400, 12000),
     (["sem 1", "thread w2/0 s", "thread a1/0 s2", "thread w1/0"], 0, 12000),
-    (["barrier mutex 2 2"], 1000, 12000),
-    (["barrier mutex 3 2"], 1000, 12000),
-    (["barrier spin 2 2"], 1000, 12000),
-    (["barrier spiny 2 2"], 1000, 12000),
+    (["barrier mutex 2 2"], 400, 12000),
+    (["barrier mutex 3 2"], 400, 12000),
+    (["barrier spin 2 2"], 400, 12000),
+    (["barrier spiny 2 2"], 400, 12000),
     (["barrier spin 3 1"], 0, 12000),
     (["barrier mutex 2 4"], 0, 12000),
 ]
@@ -97,7 +97,8 @@ def explore_cases(tier):
 
 class C11(flow.Spec):
     pid = "C11"
-    harness = dict(name="c11", sources=["c11.cpp"], flags=["-include", SHIM])
+    harness = dict(name="c11", sources=["c11.cpp"], flags=["-include", SHIM],
+                   std_flags=["-O0" if f == "-O1" else f for f in core.SAN_FLAGS])
     nontrivial_rule = ("semaphore scenario = initial value 0-3, 2-5 threads issuing signal()/signal(n)/wait(d,s)/"
                        "try_acquire(d,s) mixes, barrier scenario = kind (mutex, spin wait, spin wait_yield) x 1-5 threads x "
                        "1-8 generations; each run under several PRNG schedules (sticky / spurious wake-up variants). "
@@ -155,7 +156,7 @@ class C11(flow.Spec):
 
     def cases(self, ctx, seed, tier, round_no=0):
         rng = random.Random(seed * 1000003 + round_no * 7919 + 11)
-        n = 800 if tier == "quick" else 10000
+        n = 600 if tier == "quick" else 10000
         cs = []
         for i in range(n):
             cs.append(gen_sem(rng, i, tier) if rng.random() < 0.55 else gen_bar(rng, i, tier))
